@@ -11,7 +11,7 @@ from .edges import make_jobs, run_jobs
 from .machine import run_units, classify, trap_kind, replay_unit
 from .facts import edge_sig
 
-SAFETY_TRAPS = {"oob", "rank", "unbound", "rebound", "nonpos", "negtrip", "shape", "alias", "precond", "badarg"}
+SAFETY_TRAPS = {"oob", "oobwin", "rank", "unbound", "rebound", "nonpos", "negtrip", "shape", "alias", "precond", "badarg"}
 HEAP_TRAPS = {"uaf", "dfree", "leak", "dangling"}
 
 
